@@ -225,7 +225,7 @@ impl SanType {
 				SanType::IpAddress(ip_addr_from_octets(octets)?)
 			},
 			x509_parser::extensions::GeneralName::OtherName(oid, value) => {
-				let oid = oid.iter().ok_or(Error::CouldNotParseCertificate)?;
+				let oid = oid::components(oid).ok_or(Error::CouldNotParseCertificate)?;
 				// We first remove the explicit tag ([0] EXPLICIT)
 				let (_, other_name) = TaggedExplicit::<asn1_rs::Any, _, 0>::from_der(value)
 					.map_err(|_| Error::CouldNotParseCertificate)?;
@@ -239,7 +239,7 @@ impl SanType {
 					),
 					_ => return Err(Error::CouldNotParseCertificate),
 				};
-				SanType::OtherName((oid.collect(), other_name_value))
+				SanType::OtherName((oid, other_name_value))
 			},
 			_ => return Err(Error::InvalidNameType),
 		})
@@ -381,11 +381,9 @@ impl DistinguishedName {
 				panic!("x509-parser distinguished name set is empty");
 			};
 
-			let attr_type_oid = attr
-				.attr_type()
-				.iter()
-				.ok_or(Error::CouldNotParseCertificate)?;
-			let dn_type = DnType::from_oid(&attr_type_oid.collect::<Vec<_>>());
+			let attr_type_oid =
+				oid::components(attr.attr_type()).ok_or(Error::CouldNotParseCertificate)?;
+			let dn_type = DnType::from_oid(&attr_type_oid);
 			let data = attr.attr_value().data;
 			let try_str =
 				|data| std::str::from_utf8(data).map_err(|_| Error::CouldNotParseCertificate);
